@@ -41,6 +41,12 @@ CHECKS = {
             "identifier class on id and reference properties. The space is finite and covered completely at the abstraction chosen.",
             "Trusted: the direct parse measured on the same content is the routing reference; identifier acceptance per version is frozen in the spec; MemorySink() read through _data.",
             "DESIGN.md §3.8"),
+    "C19": ("registry", "TLA+ state machine of the per-version, per-category registries; TLC exhaustive over registration histories with action properties; TLC-generated behaviours replayed on the real registries; trace validation of random histories and a naming sweep",
+            "TLC checks ExactlyOne / Exclusive (action properties), OnlyValidNames and TagsUnique over all histories of up to 3 successful registrations interleaved with lookups and parses, "
+            "4 categories x 2 versions. All depth-2 behaviours and simulated depth-6 behaviours generated by TLC are replayed through the four decorators of v20 and v21 with the registries "
+            "compared after every step; random histories and every character class in first/middle/last position at boundary lengths are validated by the trace spec.",
+            "Trusted: registries restored from a snapshot between histories; naming rules frozen in the spec (double hyphens lenient). Custom types are fed to the round-trip/versioning pipelines by C01/C05.",
+            "DESIGN.md §3.11"),
 }
 
 NOT_YET = {}
